@@ -111,6 +111,11 @@ func body(c *mc.Ctx) {
 			defer dkv.VerifRestoreQueues(saved)
 			pfs := dkvh.MemFSFrom(files).WithWorkingDir(h.dir)
 			pdb := dkv.Open(o.DBOptions(pfs), []recovery.CheckpointHandle{h.h})
+			// WAL replay may have started flushes: reads concurrent with them are the schedule
+			// tier's subject (C07), here the restored contents are judged at quiescence
+			if err := pdb.WaitOnTasks(); err != nil {
+				c.Failf("%s: background task failed after WAL replay: %v", what, err)
+			}
 			dkvh.CheckReads(c, what, pdb, h.ref, keys, prefixes)
 			pref := h.ref.Clone()
 			for i := 0; i < 4; i++ {
@@ -251,6 +256,9 @@ func body(c *mc.Ctx) {
 					}
 				}()
 				db = dkv.Open(o.DBOptions(fs), []recovery.CheckpointHandle{h.h})
+				if !held {
+					db.WaitOnTasks()
+				}
 			}()
 			ref = h.ref.Clone()
 			h.dir = dir
